@@ -76,7 +76,7 @@ func loaderReuseCase(col *Collector, prop, format, fault string, repaired bool) 
 	case err1 == nil:
 		cs.Fail, cs.Sig = "the first load (part is "+fault+") did not fail", strings.ToLower(prop)+"-broken-accepted"
 	case repaired && err2 != nil:
-		cs.Fail, cs.Sig = "after the repair the same loader still fails: " + err2.Error(), strings.ToLower(prop)+"-reload"
+		cs.Fail, cs.Sig = "after the repair the same loader still fails: "+err2.Error(), strings.ToLower(prop)+"-reload"
 	case repaired && strings.Join(names, ",") != "build,fmt,lint,top":
 		cs.Fail, cs.Sig = fmt.Sprintf("after the repair the same loader gives the tasks %v, expected [build fmt lint top]", names), strings.ToLower(prop)+"-reload"
 	case !repaired && err2 == nil:
